@@ -99,6 +99,12 @@ func (c09) Gen(seed uint64, idx int, tier string) *Scenario {
 		sc.Src = []byte("print 1" + strings.Repeat("+1", c09HugeTerms[idx]) + "\n")
 		sc.Class = "hugecode"
 	}
+	if r.Chance(1, 60) {
+		// accepted programs with next to nothing in them: no byte at all, blanks only, a comment
+		// only, line feeds only (the line table starts at offset 0), one statement without a line end
+		sc.Src = []byte(prng.Pick(r, []string{"", " ", "\n", "\n\n\n", "# only a comment", "# c\n", "\t\r\n", ";", "print 1", "\nprint 1/0", "\n\ndef a {}\nbind a -> struct\nbind a -> struct"}))
+		sc.Class = "tiny"
+	}
 	sc.Name = progName(r)
 	sc.SetStr("partition", prng.Pick(r, []string{"whole", "bytewise", "fixed", "geometric", "twocut", "boundaries", "page", "zeros", "eofdata", "allcuts", "boundaries"}))
 	sc.SetInt("pseed", r.Intn(1<<30))
